@@ -47,12 +47,39 @@ def canon(t):
             return ("empty",)
         return out[0] if len(out) == 1 else ("seq", tuple(out))
     if k == "choice":
-        return ("choice", tuple(canon(x) for x in t[1]))
+        alts = []
+        for x in t[1]:
+            c = canon(x)
+            alts.append(c)
+            if infallible(c):
+                break        # later alternatives can never be tried
+        # a last alternative that is itself a choice / optional which cannot fail is tried exactly like its own alternatives
+        while alts and infallible(alts[-1]) and alts[-1][0] in ("choice", "opt") and len(alts) > 1:
+            last_alt = alts.pop()
+            alts.extend(last_alt[1] if last_alt[0] == "choice" else (last_alt[1], ("empty",)))
+        if len(alts) == 2 and alts[1] == ("empty",):
+            return ("opt", alts[0])      # `(x | )` and `[x]` are the same parser, failure bookkeeping included
+        return alts[0] if len(alts) == 1 and infallible(alts[0]) and len(t[1]) > 1 else ("choice", tuple(alts))
     if k in ("opt", "star", "plus", "not", "and"):
-        return (k, canon(t[1]))
+        c = canon(t[1])
+        if k == "opt" and infallible(c):
+            return c         # an optional around something that cannot fail never takes its failure branch
+        return (k, c)
     if k == "charclass":
         return ("charclass", tuple(canon(x) for x in t[1]), t[2])
     return t
+
+
+def infallible(t):
+    """A term that succeeds on every input (so that an alternative after it is dead)."""
+    k = t[0]
+    if k in ("opt", "star", "empty"):
+        return True
+    if k == "seq":
+        return all(infallible(x) for x in t[1])
+    if k == "choice":
+        return any(infallible(x) for x in t[1])
+    return False
 
 
 class Node:
@@ -355,46 +382,19 @@ class SemLifter:
         return r
 
     def _rest(self, node, cur, S, entry, where):
-        if node is not None and node.type == "call" and node.sarg == cur:
-            run = []
-            n, c = node, cur
-            while n is not None and n.type == "call" and n.sarg == c and len(run) < 12:
-                ok, er = self.outcomes(n, where)
-                run.append((n, ok, er))
-                c = ("ok", n.k)
-                n = ok
-            for j in range(len(run)):
-                nj, okj, erj = run[j]
-                try:
-                    K = self.rest(okj, ("ok", nj.k), S, entry, where)
-                except Unliftable:
-                    continue
-                good = True
-                for m in range(j + 1):
-                    nm, okm, erm = run[m]
-                    try:
-                        Rm = self.rest(erm, ("rec", cur, ("err", nm.k)), S, entry, where)
-                    except Unliftable:
-                        good = False
-                        break
-                    if Rm != K:
-                        good = False
-                        break
-                if good:
-                    terms = tuple(self.term_of_call(run[m][0], where) for m in range(j + 1))
-                    return ([("opt", canon(("seq", terms)))] + K[0], K[1], K[2])
-            # an ordered-choice group: alternatives tried one after the other with the failures recorded, every success
-            # continuing in the same way
+        # --- one item at this position, then the remainder after it
+        last_ex = None
+        for (term, okn, oks, fails) in self.first_items(node, cur, S, entry, where):
             try:
-                alts, K, fm = self.alt_rest(node, cur, S, entry, where, cur)
-            except Unliftable:
-                alts, K, fm = None, None, None
-            if alts is not None and len(alts) >= 2 and K is not None:
-                return ([("choice", tuple(alts))] + K[0], [fm] + K[1], K[2])
-            t = self.term_of_call(node, where)
-            _, ok, er = run[0]
-            r_ok = self.rest(ok, ("ok", node.k), S, entry, where)
-            return ([t] + r_ok[0], [self.fail_mode(er, ("err", node.k), cur, S, entry, where)] + r_ok[1], r_ok[2])
+                r = self.rest(okn, oks, S, entry, where)
+                modes = [self.fail_mode(n, e, cur, S, entry, where) for (n, e) in fails]
+            except Unliftable as ex:
+                last_ex = ex
+                continue
+            return ([term] + r[0], modes + r[1], r[2])
+        if last_ex is not None:
+            raise last_ex
+        # --- no item starts here: the end of the unit
         ef = self.retf(node, entry)
         if ef is None:
             if node is not None and node.type == "call":
@@ -413,10 +413,79 @@ class SemLifter:
             return ([], [], "fail")
         raise Unliftable(where, "after the last parser call the function returns %s (reached state %s)" % (ef, cur))
 
+    def atom(self, node, cur, where):
+        if node is not None and node.type == "call" and node.sarg == cur:
+            ok, er = self.outcomes(node, where)
+            return (self.term_of_call(node, where), ok, ("ok", node.k), [(er, ("err", node.k))])
+        return None
+
+    def first_items(self, node, cur, S, entry, where):
+        """Candidate readings of the first item at `node` (state `cur`): (term, ok node, ok state, [(failure node, error form)]).
+        Composite items first (ordered-choice group, optional group), then the plain call."""
+        if self.atom(node, cur, where) is None:
+            return []
+        key = ("items", id(node), cur, S)
+        memo = self.__dict__.setdefault("_rest_memo", {})
+        if key in memo:
+            return memo[key]
+        out = []
+        memo[key] = [self.atom(node, cur, where)]      # re-entrant requests see the plain reading only
+        if True:
+            if True:
+                # ordered choice: alternatives tried one after the other, failures recorded, every success continuing alike
+                try:
+                    alts, K, okn, oks, fin = self.alt_rest(node, cur, S, entry, where, cur)
+                except Unliftable:
+                    alts = None
+                if alts is not None and len(alts) >= 2 and K is not None:
+                    out.append((("choice", tuple(alts)), okn, oks, [fin] if fin is not None else []))
+                # optional group: a run of items whose failures all continue exactly like the run's success, from the run's
+                # start state with the failure recorded
+                for (terms, okn, oks, fails) in self.prefixes(node, cur, S, entry, where):
+                    if not fails:
+                        continue
+                    try:
+                        K = self.rest(okn, oks, S, entry, where)
+                        good = all(self.rest(n, ("rec", cur, e), S, entry, where) == K for (n, e) in fails)
+                    except Unliftable:
+                        good = False
+                    if good:
+                        out.append((("opt", canon(("seq", tuple(terms)))), okn, oks, []))
+                        break
+        out.append(self.atom(node, cur, where))
+        memo[key] = out
+        return out
+
+    def prefixes(self, node, cur, S, entry, where, limit=10):
+        """Growing runs of items from `node`: (terms, ok node, ok state, accumulated failure exits).  Inside a run the first
+        viable reading of each item is taken (composite before plain)."""
+        terms, fails = [], []
+        n, c = node, cur
+        for _ in range(limit):
+            item = None
+            if n is not None and n.type == "call" and n.sarg == c:
+                if terms:
+                    # nested groups inside a run: composite readings of the next item
+                    for cand in self.first_items(n, c, S, entry, where):
+                        item = cand
+                        break
+                else:
+                    item = self.atom(n, c, where)
+                    # the first item of a run may itself be a (nested) choice group - but not the group being recognised:
+                    # that recursion is cut by the depth counter in first_items
+            if item is None:
+                return
+            term, okn, oks, fl = item
+            terms = terms + [term]
+            fails = fails + list(fl)
+            n, c = okn, oks
+            yield (list(terms), okn, oks, list(fails))
+
     def alt_rest(self, node, st, S, entry, where, start):
-        """(alternatives, K): from `node`, reached with state `st`, alternatives are tried in order - each a run of calls
-        starting at st, a failure anywhere in it leading to the next alternative from st with that failure recorded, its
-        success continuing with K - until Err(report_farthest_error(st)) when none is left.  K is None if there is no alternative."""
+        """(alternatives, K, ok node, ok state, final failure exit): from `node`, reached with state `st`, alternatives are tried
+        in order - each a run of items starting at st, a failure anywhere in it leading to the next alternative from st with
+        that failure recorded, its success continuing with K - until the choice as a whole fails with the farthest recorded
+        failure (final failure exit = (node, ('farthest', state with all failures recorded)))."""
         key = ("alt", id(node), st, S, start)
         memo = self.__dict__.setdefault("_rest_memo", {})
         if key in memo:
@@ -424,51 +493,97 @@ class SemLifter:
             if isinstance(r, Unliftable):
                 raise r
             return r
+        stack = self.__dict__.setdefault("_alt_stack", [])
+        stack.append(st)
         try:
             r = self._alt_rest(node, st, S, entry, where, start)
         except Unliftable as ex:
             memo[key] = ex
             raise
+        finally:
+            stack.pop()
         memo[key] = r
         return r
 
     def _alt_rest(self, node, st, S, entry, where, start):
-        run = []
-        n, c = node, st
-        while n is not None and n.type == "call" and n.sarg == c and len(run) < 12:
-            ok, er = self.outcomes(n, where)
-            run.append((n, ok, er))
-            c = ("ok", n.k)
-            n = ok
-        if not run:
-            # no alternative left: the choice as a whole fails with the farthest recorded failure, which the enclosing unit
-            # handles like any other failure of an item that started at `start`
-            try:
-                return [], None, self.fail_mode(node, ("farthest", st), start, S, entry, where)
-            except Unliftable:
-                raise Unliftable(where, "an alternative does not start from the choice's entry state with the earlier failures recorded "
-                                        "(or the choice does not end in the farthest recorded failure)")
         last_ex = None
-        for j in range(len(run)):
-            nj, okj, erj = run[j]
+        any_prefix = False
+        for (terms, okn, oks, fails) in self.prefixes(node, st, S, entry, where):
+            any_prefix = True
             try:
-                K = self.rest(okj, ("ok", nj.k), S, entry, where)
+                K = self.rest(okn, oks, S, entry, where)
                 tails = None
-                for m in range(j + 1):
-                    nm, okm, erm = run[m]
-                    alts_m, K_m, fm_m = self.alt_rest(erm, ("rec", st, ("err", nm.k)), S, entry, where, start)
+                for (n, e) in fails:
+                    alts_m, K_m, _, _, fin_m = self.alt_rest(n, ("rec", st, e), S, entry, where, start)
                     if K_m is not None and K_m != K:
                         raise Unliftable(where, "alternatives of one choice continue differently after succeeding")
                     if tails is None:
-                        tails = (alts_m, fm_m)
-                    elif tails != (alts_m, fm_m):
+                        tails = (alts_m, fin_m)
+                    elif tails[0] != alts_m or self._fin_sig(tails[1], S, entry, where, st, start) != self._fin_sig(fin_m, S, entry, where, st, start):
+                        import os
+                        if os.environ.get("LIFT2_DEBUG"):
+                            print("TAILS DIFFER at", st, "\n  A:", tails[0], self._fin_sig(tails[1], S, entry, where, st, start), "\n  B:", alts_m, self._fin_sig(fin_m, S, entry, where, st, start))
                         raise Unliftable(where, "the alternatives tried after a failure depend on which part failed")
+                if tails is None:
+                    raise Unliftable(where, "an alternative that cannot fail")
             except Unliftable as ex:
                 last_ex = ex
                 continue
-            terms = tuple(self.term_of_call(run[m][0], where) for m in range(j + 1))
-            return [canon(("seq", terms))] + tails[0], K, tails[1]
+            return self._maybe_nested(([canon(("seq", tuple(terms)))] + tails[0], K, okn, oks, tails[1]), st, S, entry, where, start)
+        if not any_prefix:
+            # an alternative that consumes nothing and cannot fail (`| )`): the choice continues from the state reached so far
+            if node is not None and node.type in ("ret", "vret", "loopback"):
+                try:
+                    K0 = self.rest(node, st, S, entry, where)
+                except Unliftable:
+                    K0 = None
+                if K0 is not None and K0[0] == [] and K0[2] in ("consume", "again"):
+                    return [("empty",)], K0, node, st, None
+            # no alternative left: the choice as a whole fails with the farthest recorded failure
+            return [], None, None, None, (node, ("farthest", st))
         raise last_ex or Unliftable(where, "unrecognised alternative")
+
+    def _maybe_nested(self, res, st, S, entry, where, start):
+        """The alternatives read so far end in a failure exit that is no exit of the unit: they form a parenthesised choice that
+        is itself the first alternative of an enclosing choice, whose further alternatives start from `st` with the inner
+        choice's farthest failure recorded."""
+        alts, K, okn, oks, fin = res
+        if len(alts) < 2 or fin is None or self._fin_sig(fin, S, entry, where)[0] == "mode":
+            return res
+        n_f, E_f = fin
+        try:
+            alts_o, K_o, _, _, fin_o = self.alt_rest(n_f, ("rec", st, E_f), S, entry, where, start)
+        except Unliftable:
+            return res
+        if K_o is not None and K_o != K:
+            return res
+        return [("choice", tuple(alts))] + alts_o, K, okn, oks, fin_o
+
+    def _fin_sig(self, fin, S, entry, where, st=None, start=None):
+        """What the final failure exit of a list of alternatives amounts to: an exit of the unit (its mode), or - seen from a
+        choice that started at `st` - the further alternatives of an enclosing choice."""
+        if fin is None:
+            return ("mode", ("never",))
+        n, e = fin
+        try:
+            return ("mode", self.fail_mode(n, e, None, S, entry, where))
+        except Unliftable:
+            pass
+        cands = []
+        if st is not None:
+            for g in [st] + list(reversed(self.__dict__.get("_alt_stack", []))) + [start]:
+                if g is not None and g not in cands:
+                    cands.append(g)
+        for g in cands:
+            # g: where the parenthesised group may have started (this alternative, or an earlier one of the same choice)
+            try:
+                alts_o, K_o, _, _, fin_o = self.alt_rest(n, ("rec", g, e), S, entry, where, start)
+            except Unliftable:
+                continue
+            sig_o = self._fin_sig(fin_o, S, entry, where)
+            if alts_o or sig_o[0] == "mode":
+                return ("outer", g == st, tuple(alts_o), K_o, sig_o)
+        return ("node", id(n))
 
     def fail_mode(self, n, e, cur, S, entry, where):
         f = self.retf(n, entry)
